@@ -601,7 +601,7 @@ def main():
     templates = build_templates(B)
     m = 4 if B.thorough else 3
     B.bound = (f"validator: all chunks of <= {3 if B.thorough else 2} records over ids -1..n (n=2{',3' if B.thorough else ''}), frame and dict form; "
-               f"creation: streams of m={m} chunks over 8 bins; fault at every chunk index 0..m: iterator raises / out-of-range id "
+               f"creation: streams of m={m} chunks{' (also 1, 2, 5; 400 seeded random faults on m in 1..6)' if B.thorough else ''} over 8 bins; fault at every chunk index 0..m: iterator raises / out-of-range id "
                "(bin2=n, bin1=n, bin1=-1, bin2=n+3) / lower-triangle pixel / in-chunk duplicate / unstorable value (write step fails) at first|middle|last row; "
                "destinations: new file, new group in multi-collection file, existing plain group, root of a file holding collections, "
                "sibling of a nested collection, existing plain group next to a nested collection, new file non-root group (thorough); producers: ordered, unordered (input pass, merge pass), "
@@ -683,7 +683,7 @@ def main():
         go("unordered-input", dname, dict(kind="natural", what="max_merge smaller than the number of chunks"), m=3, opts={"max_merge": 2})
     if B.thorough:
         # other stream lengths, and the two-pass (recursive) merge of the unordered ingest
-        for mm in (1, 2):
+        for mm in (1, 2, 5):
             for prod in ("ordered", "unordered-input"):
                 for dname in ("new-group-in-multi", "new-file"):
                     go(prod, dname, None, m=mm)
@@ -695,7 +695,7 @@ def main():
                 go("unordered-input", dname, fault, m=4, opts={"max_merge": 2})
         # seeded random faults on random stream lengths
         B.exhaustive = False
-        for _ in range(150):
+        for _ in range(400):
             mm = B.rng.randint(1, 6)
             prod = B.rng.choice(["ordered", "unordered-input"])
             dname = B.rng.choice(dests)
